@@ -12,7 +12,8 @@ From Coq Require Import List Bool Arith NArith Lia Relations Permutation.
 Import ListNotations.
 From BB Require Import BN Brute SpaceFacts TrapFacts PercolateFacts AttractorFacts Diagram Invariants Checks Filter
   Strict PetriNet Control Meta FilterFacts PetriNetFacts TrappistFacts DiagramStruct DiagramSem1 DiagramCache
-  DiagramDepth DiagramComplete Termination ControlFacts MetaFacts Candidates StrictFacts MinExpandFacts CandidatesFacts SymbolicTest SymbolicTestFacts Signed ReductionFacts ControlFacts2 Main Blocks BlocksFacts ObsFacts OwnerFacts CandidatesTerm.
+  DiagramDepth DiagramComplete Termination ControlFacts MetaFacts Candidates StrictFacts MinExpandFacts CandidatesFacts SymbolicTest SymbolicTestFacts Signed ReductionFacts ControlFacts2 Main Blocks BlocksFacts ObsFacts OwnerFacts CandidatesTerm
+  PartialOwner BlockMath BlockComplete ASeeds ASeedsFacts LogChecks SkipRule SkipRuleFacts Names NamesFacts Perm PermFacts.
 
 Theorem C04_run_invariants : forall (fuel : nat) (N : net) (cfg : config) (h : list op) (d : sd) (r : result), 1 <= max_motifs cfg -> Forall plain h -> In (d, r) (run fuel N cfg (init N) h) -> SWF N d /\ TrapNodes N d /\ EdgeStrict d /\ NoStubEdges d /\ Rooted d /\ Faithful N d.
 Proof. exact run_invariants. Qed.
@@ -53,6 +54,9 @@ Proof. exact bfs_after_anything. Qed.
 Theorem C04_hierarchy_unique : forall (N : net) (d d' : sd), Hierarchy N d -> Hierarchy N d' -> Rooted d -> Rooted d' -> same_hierarchy d d'.
 Proof. exact hierarchy_unique_weak. Qed.
 
+Theorem C04_aseeds_expansion_keeps_invariants : forall (fuel : nat) (N : net) (cfg : config) (d : sd) (sz : option nat) (min_tape : list space) (tape : list (list nat)), 1 <= max_motifs cfg -> PlainInv N d -> PlainInv N (fst (expand_aseeds fuel N cfg d sz min_tape tape)).
+Proof. exact expand_aseeds_PlainInv. Qed.
+
 (* non-vacuity: two bistable switches; x0'=x1, x1'=x0, x2'=x3, x3'=x2 *)
 Definition ex_sw : net := [fun s => nth 1 s false; fun s => nth 0 s false; fun s => nth 3 s false; fun s => nth 2 s false].
 Definition ex_cfg : config := {| max_motifs := 1000 |}.
@@ -72,3 +76,4 @@ Print Assumptions C04_block_expansion_no_stub_edges.
 Print Assumptions C04_block_expansion_wellformed.
 Print Assumptions C04_continuation_gives_the_fresh_hierarchy.
 Print Assumptions C04_hierarchy_unique.
+Print Assumptions C04_aseeds_expansion_keeps_invariants.
